@@ -177,6 +177,17 @@ func (c *c20) isolation(tape *kernel.Tape, n int) {
 	// a configuration value owned by the caller and used for several providers; optional members left empty
 	sharedConf := &op.Config{CryptoKey: w.Conf.CryptoKey, CodeMethodS256: true, GrantTypeRefreshToken: true, DeviceAuthorization: w.Conf.DeviceAuthorization}
 	sharedConfBefore, worldConfBefore := fmt.Sprintf("%+v", *sharedConf), fmt.Sprintf("%+v", *w.Conf)
+	// the storage hands out its own client records; their lists (redirect URIs, grants, response types, scopes) are the
+	// storage's objects, which requests read and nobody rewrites
+	regSnapshot := func() string {
+		var b strings.Builder
+		for _, id := range w.Store.SortedClientIDs() {
+			cl := w.Store.Clients[id]
+			fmt.Fprintf(&b, "%s: redirects=%q postlogout=%q globs=%q grants=%v resp=%v scopes=%q dropID=%q dropAT=%q\n", id, cl.Redirects, cl.PostLogout, cl.PostLogoutGlobs, cl.Grants, cl.RespTypes, cl.AllowedScopes, cl.DropFromID, cl.DropFromAT)
+		}
+		return b.String()
+	}
+	regBefore := regSnapshot()
 	callerHeaders := []string{"x-other", "x-tenant"}
 	callerHeadersBefore := strings.Join(callerHeaders, ",")
 	steps(c.o, tape, n, func(i int, ch *kernel.Chooser) string {
@@ -456,6 +467,10 @@ func (c *c20) isolation(tape *kernel.Tape, n int) {
 			c.viol("caller-object-mutated", "op.Config", "after %q: the configuration value of the running provider was modified:\n  before: %s\n  after:  %s", desc, worldConfBefore, got)
 			worldConfBefore = got
 		}
+		if got := regSnapshot(); got != regBefore {
+			c.viol("caller-object-mutated", "op.Client/registration-lists", "after %q: a list of a client record owned by the storage was rewritten:\n  before: %s\n  after:  %s", desc, firstDiffLine(regBefore, got), firstDiffLine(got, regBefore))
+			regBefore = got
+		}
 		if got := strings.Join(callerHeaders, ","); got != callerHeadersBefore {
 			c.viol("caller-object-mutated", "op.WithIssuerFromCustomHeaders/headers", "after %q: the caller's header list was rewritten: %s -> %s", desc, callerHeadersBefore, got)
 			callerHeaders = strings.Split(callerHeadersBefore, ",")
@@ -562,6 +577,17 @@ func (c *c20) siblings(ch *kernel.Chooser, hc *http.Client) string {
 		done = append(done, name)
 	}
 	return fmt.Sprintf("sibling instances used: %v", done)
+}
+
+// firstDiffLine returns the first line of a that differs from the same line of b.
+func firstDiffLine(a, b string) string {
+	la, lb := strings.Split(a, "\n"), strings.Split(b, "\n")
+	for i := range la {
+		if i >= len(lb) || la[i] != lb[i] {
+			return la[i]
+		}
+	}
+	return ""
 }
 
 func issuerOf(fp string) string {
